@@ -7,7 +7,7 @@ COQ = os.path.join(os.path.dirname(os.path.dirname(os.path.abspath(__file__))), 
 def main():
     files = []
     for dp, dn, fn in os.walk(COQ):
-        dn[:] = [d for d in dn if not d.startswith(".") and d not in ("Golden", "scratch")]
+        dn[:] = [d for d in dn if not d.startswith(".") and d not in ("scratch",)]
         for f in fn:
             if f.endswith(".v") and not f.startswith("."):
                 files.append(os.path.relpath(os.path.join(dp, f), COQ))
